@@ -614,6 +614,13 @@ class Interp:
                 return ln, (lambda i, it=it: Term("listitem", [it, Num(i)])), ("listgeneric", it)
             return Poly.app("len", Poly.atom(("sym", f"list#{it.uid}"))), (lambda i, it=it: Term("listitem", [it, Num(i)])), \
                 ("listguarded", it)
+        if isinstance(it, ObjV) and it.ext == "ndarray" and "dims" in it.attrs and len(it.attrs["dims"].items_p) == 2:
+            d0, d1 = it.attrs["dims"].items_p
+
+            def fn_arr(i, it=it, d1=d1):
+                c = self.fresh_idx("c")
+                return Grid([[(c, d1)]], Num(Poly.app("arrat", f"arr#{it.uid}", i, Poly.atom(c))))
+            return d0, fn_arr, ("ndarray", it)
         if isinstance(it, TupleV):
             return Poly.const(len(it.items)), None, ("literal", list(it.items))
         if isinstance(it, Const) and isinstance(it.v, tuple):
